@@ -514,6 +514,13 @@ func ParamWrites(f *ssa.Function, k int, isOutput func(g *ssa.Function, idx int)
 				if derived(x.Addr) {
 					out = append(out, ParamWrite{in, "element store"})
 				}
+				// the slice itself kept in package-level storage: the caller's later writes to his buffer change
+				// what the package remembers (a cache keyed by an aliased key compares the key with itself)
+				if derived(x.Val) {
+					if g := rootGlobal(x.Addr, 0); g != nil {
+						out = append(out, ParamWrite{in, "kept in the package variable " + g.Name() + " beyond the call (aliased, not copied)"})
+					}
+				}
 			case ssa.CallInstruction:
 				name := CalleeName(x.Common())
 				args := CallArgs(x.Common())
